@@ -3,3 +3,4 @@ import NjectProps.C18
 import NjectProps.C06
 import NjectProps.C06b
 import NjectProps.C03C15
+import NjectProps.C13
